@@ -130,6 +130,29 @@ Theorem C01_answered_when_healthy_small_e : forall e0 i r w m n b ts,
 Proof. exact answered_when_healthy3. Qed.
 Print Assumptions C01_answered_when_healthy_small_e.
 
+(* INPUT-ONLY FORM.  At the epoch, or at any time for a drag-free set (B* = 0), the drag polynomial and the drag terms of the
+   eccentricity vanish (a = a0'', e = e0) and |ayNL| <= A30 / (4 k2 a (1 - e0^2)); with the constructor's perigee guard this makes
+   the orbit healthy.  So: an ACCEPTED element set (e0 > 1e-4) with e0 <= 0.39 and TLE mean motion 6.4 .. 18 rev/day is answered
+   and its returned state is within 1 mm / 1 um/s of the report - no hypothesis on intermediate quantities is left *)
+From PyOrb.proofs Require P_Sgp4AnsweredEpoch.
+Theorem C01_accuracy_at_epoch_or_drag_free : forall e0 i r w m n b ts,
+  gen_init_outcome e0 i r w m n b = InitMode NearNorm 1 ->
+  b = 0 \/ ts = 0 -> e0 <= 39 / 100 -> 64 / 10 <= n <= 18 ->
+  exists j, (j <= 5)%nat /\ gen_nn1_prop_outcome e0 i r w m n b ts = PropOk j /\
+  let El := E e0 i r w m n b in let T := mkT false ts in let ec := ecl e0 i r w m n b ts in
+  let Ucap := fmodR (U El T ec) (2 * PI) in
+  let '(radius, theta, eqinc, ascn, rdk, rfdk) := nn1_returned j e0 i r w m n b ts in
+  exists Es, kepler_residual El T ec Ucap Es = 0 /\
+    (forall Es', kepler_residual El T ec Ucap Es' = 0 -> Es' = Es) /\
+    Rabs (gen_kep2xyz_x radius theta eqinc ascn rdk rfdk - Pxf El T ec Es) <= 1 / 1000000 /\
+    Rabs (gen_kep2xyz_y radius theta eqinc ascn rdk rfdk - Pyf El T ec Es) <= 1 / 1000000 /\
+    Rabs (gen_kep2xyz_z radius theta eqinc ascn rdk rfdk - Pzf El T ec Es) <= 1 / 1000000 /\
+    Rabs (gen_kep2xyz_vx radius theta eqinc ascn rdk rfdk - Vxk El T ec Es) <= 1 / 1000000000 /\
+    Rabs (gen_kep2xyz_vy radius theta eqinc ascn rdk rfdk - Vyk El T ec Es) <= 1 / 1000000000 /\
+    Rabs (gen_kep2xyz_vz radius theta eqinc ascn rdk rfdk - Vzk El T ec Es) <= 1 / 1000000000.
+Proof. exact P_Sgp4AnsweredEpoch.accuracy_when_frozen. Qed.
+Print Assumptions C01_accuracy_at_epoch_or_drag_free.
+
 (* non-vacuity of everything above: the ISS element set of the test-suite, propagated to its epoch, is on leaf 1
    (C01_iss_on_leaf1), healthy (interval arithmetic), hence answered, and a <= 4: every hypothesis of
    C01_answered_position_accuracy is met by a concrete input *)
